@@ -76,6 +76,12 @@ SITES = {
                           modpath="abe_policy::access_policy::verif_k"),
     "serialization_model": dict(file="serialization_model.rs", include=["common.rs"],
                                 parent="src/core/serialization/mod.rs", modpath="core::serialization::verif_k"),
+    "serialization_narrow": dict(file="serialization_narrow.rs", include=["common.rs"], modname="verif_k3",
+                                 parent="src/core/serialization/mod.rs", modpath="core::serialization::verif_k3"),
+    "primitives_model2": dict(file="primitives_model2.rs", include=["common.rs"], modname="verif_k4",
+                              parent="src/core/primitives.rs", modpath="core::primitives::verif_k4"),
+    "serialization_layout": dict(file="serialization_layout.rs", include=["common.rs"], modname="verif_k5",
+                                 parent="src/core/serialization/mod.rs", modpath="core::serialization::verif_k5"),
     "policy_model": dict(file="policy_model.rs", include=["common.rs"], parent="src/abe_policy/access_structure.rs",
                          modpath="abe_policy::access_structure::verif_k"),
 }
@@ -189,7 +195,7 @@ for n, m, a, b, tier, props in [
 H("k_refresh_drops_unknown_right", "keys_model", ["C05", "C03"], "quick", unwind=4, covers=["one chain left"],
   desc="refresh_coordinate_keys drops a right the master key no longer has, keeps the other",
   bounds=KL + "1 right in the master key, user key with 2 rights; symbolic secrets", **_k)
-for n, ln, tier in [("k_rekey_chain1", 1, "quick"), ("k_rekey_chain2", 2, "thorough")]:
+for n, ln, tier in [("k_rekey_chain1", 1, "quick"), ("k_rekey_chain2", 2, "quick")]:  # chain2 moved to quick: seed C06-2
     H(n, "keys_model", ["C06", "C04", "C11", "C09"], tier, unwind=4,
       covers=["right was disabled before the rekey", "hybridized right"],
       desc="rekey of a held right: exactly one secret prepended, same flavour, SAME activation flag; older secrets untouched",
@@ -275,6 +281,12 @@ H("h_bitor_tables", "policy_model", ["C11", "C06"], "quick", unwind=2, covers=["
 for _n in ["z_xenc_roundtrip", "z_usk_roundtrip", "z_msk_roundtrip", "z_mpk_roundtrip", "x_header_frames",
            "u_parse_xenc", "u_parse_usk"]:
     H(_n, "serialization_model", ["DEV"], "quick", build="model", unwind=4, timeout=1500, loops=CMP34, desc="dev", bounds="dev")
+for _n in ["zn_msk_flags_roundtrip", "zn_usk_roundtrip", "zn_mpk_roundtrip", "zn_xenc_roundtrip"]:
+    H(_n, "serialization_narrow", ["DEV"], "quick", build="model", unwind=4, timeout=900, loops=CMP34, desc="dev", bounds="dev")
+for _n in ["zr_usk_read_layout", "zw_usk_write_layout", "zr_msk_read_layout"]:
+    H(_n, "serialization_layout", ["DEV"], "quick", build="model", unwind=4, timeout=1200, loops=CMP34, desc="dev", bounds="dev")
+H("y_full_decaps_2x2", "primitives_model2", ["DEV"], "quick", build="model", unwind=3, timeout=1800,
+  loops=TRAP_LOOPS + [[r"std::option::Option<", 4]], desc="dev", bounds="dev")
 for _n in ["f_verify_detects_value_changes", "f_sign_order_matters", "f_sign_reframing_chain_split"]:
     H(_n, "primitives_model", ["DEV"], "quick", build="model", unwind=4, timeout=1500, loops=SMALL_CMP, desc="dev", bounds="dev")
 
